@@ -361,6 +361,15 @@ func (e *FuncEnc) loopInvariantFormulas(li *loopInfo, bind map[*ssa.Phi]string, 
 			}
 			// role-based access for family hooks: the loop-carried variables by position
 			env.vars[fmt.Sprintf("#phi:%03d", len(env.vars))] = tv{s: bind[phi], t: phi.Type(), srt: e.D.SortOf(phi.Type())}
+			// the number of completed iterations, however the loop counts them:
+			// `for i := 0; ...; i++` (i itself) or a range loop (rangeindex + 1)
+			if _, has := env.vars["#done"]; !has {
+				if phi.Comment == "rangeindex" {
+					env.vars["#done"] = tv{s: sx("+", bind[phi], "1"), t: phi.Type(), srt: "Int"}
+				} else if e.countsFromZero(li, phi) {
+					env.vars["#done"] = tv{s: bind[phi], t: phi.Type(), srt: "Int"}
+				}
+			}
 		}
 		for _, cl := range e.Contract.LoopInv[ord] {
 			f, err := env.formula(cl)
@@ -573,3 +582,25 @@ func (e *FuncEnc) calleeKeepsResp(f *ssa.Function) bool {
 }
 
 func (e *FuncEnc) invokeKeepsResp(cc *ssa.CallCommon) bool { return false }
+
+// countsFromZero: phi is 0 on every entry edge of the loop and phi+1 on every back edge.
+func (e *FuncEnc) countsFromZero(li *loopInfo, phi *ssa.Phi) bool {
+	b, ok := phi.Type().Underlying().(*types.Basic)
+	if !ok || b.Info()&types.IsInteger == 0 {
+		return false
+	}
+	h := li.header
+	backs := 0
+	for i, p := range h.Preds {
+		if e.backEdge[[2]int{p.Index, h.Index}] {
+			backs++
+			add, ok := phi.Edges[i].(*ssa.BinOp)
+			if !ok || add.Op != token.ADD || add.X != ssa.Value(phi) || !isConstInt(add.Y, 1) {
+				return false
+			}
+		} else if !isConstInt(phi.Edges[i], 0) {
+			return false
+		}
+	}
+	return backs > 0
+}
